@@ -20,29 +20,36 @@ impl FlattenedJson {
     /// Create a `FlattenedJson` from `Raw`.
     pub fn from_raw<T>(raw: &Raw<T>) -> Self {
         let mut s = Self { map: BTreeMap::new() };
-        s.flatten_value(to_json_value(raw).unwrap(), "".into());
+        s.flatten_value(to_json_value(raw).unwrap(), None);
         s
     }
 
     /// Flatten and insert the `value` at `path`.
     #[instrument(skip(self, value))]
-    fn flatten_value(&mut self, value: JsonValue, path: String) {
+    fn flatten_value(&mut self, value: JsonValue, path: Option<String>) {
+        // `None` is the root of the event, which is different from a property whose name is the
+        // empty string.
         match value {
             JsonValue::Object(fields) => {
                 if fields.is_empty() {
+                    let path = path.unwrap_or_default();
                     if self.map.insert(path.clone(), FlattenedJsonValue::EmptyObject).is_some() {
                         warn!("Duplicate path in flattened JSON: {path}");
                     }
                 } else {
                     for (key, value) in fields {
                         let key = escape_key(&key);
-                        let path = if path.is_empty() { key } else { format!("{path}.{key}") };
-                        self.flatten_value(value, path);
+                        let path = match &path {
+                            Some(path) => format!("{path}.{key}"),
+                            None => key,
+                        };
+                        self.flatten_value(value, Some(path));
                     }
                 }
             }
             value => {
                 if let Some(v) = FlattenedJsonValue::from_json_value(value) {
+                    let path = path.unwrap_or_default();
                     if self.map.insert(path.clone(), v).is_some() {
                         warn!("Duplicate path in flattened JSON: {path}");
                     }
